@@ -36,6 +36,12 @@ macro_rules! big {
                 let v: u64 = std::str::from_utf8(&content)?.trim().parse()?;
                 if v >= RACE_BASE {
                     race_rendezvous();
+                } else if v >= SLOW_BASE {
+                    SLOW_STARTED.store(true, SeqCst);
+                    let t = std::time::Instant::now();
+                    while t.elapsed().as_millis() < 12 {
+                        std::hint::spin_loop();
+                    }
                 }
                 slow_loader();
                 Ok(<$name as Words>::make(v))
@@ -67,6 +73,62 @@ fn race_rendezvous() {
             std::hint::spin_loop();
         }
     }
+}
+
+/// Versions in SLOW_BASE..RACE_BASE take 12 ms to load (and say when they start).
+const SLOW_BASE: u64 = 1 << 30;
+static SLOW_STARTED: AtomicBool = AtomicBool::new(false);
+
+/// A notification about a file that no asset uses is examined by a hot_reload request while a second request is
+/// queued behind it; during the (slow) pass of the first request an asset that reads that file is loaded for the
+/// first time. It was loaded after the notification: nothing may reload it. Reused by C06.
+pub fn late_registration() -> Option<(String, String)> {
+    use assets_manager::hot_reloading::verif;
+    let src = MemSource::new(true);
+    src.tree().put("g", "w", b"0".to_vec(), Variant::Buffer);
+    src.tree().put("x", "w", b"5".to_vec(), Variant::Buffer);
+    let cache = AssetCache::with_source(src.handle());
+    let _g = cache.load::<W8>("g").expect("load g");
+    // let the reloader register g and go back to sleep; then it dawdles when it wakes up, so that both requests
+    // are queued before it looks at the first
+    std::thread::sleep(std::time::Duration::from_millis(3));
+    verif::set_schedule_hook(Some(Arc::new(|point| {
+        if point == 0 {
+            std::thread::sleep(std::time::Duration::from_millis(4));
+        }
+    })));
+    SLOW_STARTED.store(false, SeqCst);
+    src.tree().put("g", "w", (SLOW_BASE + 1).to_string().into_bytes(), Variant::Buffer);
+    src.send(&OwnedEntry::File("g".into(), "w".into()));
+    src.send(&OwnedEntry::File("x".into(), "w".into()));
+    let x_state = std::thread::scope(|s| {
+        let t1 = s.spawn(|| cache.hot_reload());
+        let t2 = s.spawn(|| cache.hot_reload());
+        // while g is being reloaded by the first request, x is loaded for the first time
+        let mut spins = 0u64;
+        while !SLOW_STARTED.load(SeqCst) && spins < 50_000_000 {
+            spins += 1;
+            std::hint::spin_loop();
+        }
+        // (if the pass did not start in time the notification may be examined after x is registered, and reloading
+        // x is then legitimate: the scenario says nothing)
+        let examined_before_load = SLOW_STARTED.load(SeqCst);
+        let x = cache.load::<W8>("x").expect("load x");
+        let _ = (t1.join(), t2.join());
+        verif::set_schedule_hook(None);
+        // whatever was left pending is applied now
+        cache.hot_reload();
+        cache.hot_reload();
+        (x.last_reload_id(), x.reloaded_global(), examined_before_load)
+    });
+    verif::set_schedule_hook(None);
+    if x_state.2 && (x_state.0 != ReloadId::NEVER || x_state.1) {
+        return Some((
+            "reloaded-without-notification".into(),
+            format!("x was loaded for the first time after the notification about its file had been sent (and examined by a request, with a second request queued behind): nothing was notified since, yet x was reloaded (last_reload_id {:?}, reloaded_global {})", x_state.0, x_state.1),
+        ));
+    }
+    None
 }
 
 /// Spins for about that many microseconds in every load (0 = off): widens the window in which a reload
@@ -248,7 +310,23 @@ fn reader<T: Words + Asset>(h: &Handle<T>, style: Style, sh: &Shared) {
     let mut watcher = h.reload_watcher();
     let mut reports = 0u64;
     let mut last_version = 0u64;
+    // progress of the writer, counted in this reader's own read sections (never in time): a hot_reload call
+    // that is in flight must get the entry's write lock although readers keep coming
+    let (mut iters, mut stuck_since, mut call_seen) = (0u64, 0u64, 0u64);
     while !sh.stop.load(SeqCst) {
+        iters += 1;
+        if iters % 4096 == 0 {
+            let (s, f) = (sh.started.load(SeqCst), sh.finished.load(SeqCst));
+            if s > f && s == call_seen {
+                if iters - stuck_since > 30_000_000 {
+                    sh.fail("writer-starved", format!("one hot_reload call (the {s}th) has been in flight while this reader alone completed {} read sections: readers keep the reloader from ever getting the entry's write lock", iters - stuck_since));
+                    return;
+                }
+            } else {
+                call_seen = s;
+                stuck_since = iters;
+            }
+        }
         let version = match style {
             Style::Short => {
                 let g = h.read();
